@@ -849,7 +849,6 @@ func (e *Exec) builtin(name string, args []Value, cc *ssa.CallCommon) Value {
 		if ch.C.Closed {
 			e.fail("close-closed-chan", "close of closed channel")
 		}
-		e.schedPoint("close")
 		ch.C.Closed = true
 		return nil
 	case "print", "println":
